@@ -2,6 +2,7 @@
    respect to the reference semantics Spec.Names.expand, and the exact acceptance condition. *)
 From DNS Require Import Model.Dec Spec.Names Proofs.DecBase Proofs.DecName Proofs.DecNameSpec
   Proofs.DecNameSound Proofs.DecNameCyclic Proofs.DecNameComplete.
+From DNS Require Import Spec.Wire Proofs.CorrMsg Proofs.CorrTop.
 Local Open Scope N_scope.
 
 (* Vocabulary (definitions in Proofs/, see also Props/C07.v):
@@ -73,6 +74,54 @@ Print Assumptions C04_name_accept_iff.
 (* ---- examples (non-vacuity) ---- *)
 (* "ab.c" at offset 0; at offset 6 the label "d" followed by a pointer to offset 0 *)
 Definition ptr_msg : bytes := [2; 97; 98; 1; 99; 0; 1; 100; 192; 0].
+
+(* C04 — every well-formed message is accepted, exactly: whatever the independent reference decoder
+   (Spec/Wire.v) accepts, the decoder model accepts with the same value. *)
+
+Theorem C04_complete_Dns : forall b m, bytes_ok b -> spec_Dns b = Some m -> exists s, dec_Dns b = DOk m s.
+Proof. exact complete_Dns. Qed.
+Print Assumptions C04_complete_Dns.
+
+Theorem C04_complete_RR : forall b r, bytes_ok b -> lenN b < 2 ^ 62 ->
+  spec_RR b = Some r -> exists s, dec_RR b = DOk r s.
+Proof. exact complete_RR. Qed.
+Print Assumptions C04_complete_RR.
+
+Theorem C04_complete_Question : forall b q, bytes_ok b -> lenN b < 2 ^ 62 ->
+  spec_Question b = Some q -> exists s, dec_Question b = DOk q s.
+Proof. exact complete_Question. Qed.
+Print Assumptions C04_complete_Question.
+
+Theorem C04_complete_Flags : forall b f, bytes_ok b -> lenN b < 2 ^ 62 ->
+  spec_Flags b = Some f -> exists s, dec_Flags b = DOk f s.
+Proof. exact complete_Flags. Qed.
+Print Assumptions C04_complete_Flags.
+
+Theorem C04_complete_DomainName : forall b n, bytes_ok b -> lenN b < 2 ^ 62 ->
+  spec_DomainName b = Some n -> exists s, dec_DomainName b = DOk n s.
+Proof. exact complete_DomainName. Qed.
+Print Assumptions C04_complete_DomainName.
+
+(* non-vacuity: an SVCB record in ServiceMode whose two parameters arrive out of key order (port before
+   no-default-alpn) is accepted by both decoders, which report the parameter set in key order *)
+Definition ex_svcb : bytes :=
+  [0; 0; 64; 0; 1; 0; 0; 0; 10; 0; 13;
+   0; 1; 0;
+   0; 3; 0; 2; 1; 187;
+   0; 2; 0; 0].
+
+Example C04_example_svcb :
+  exists r s, spec_RR ex_svcb = Some r /\ dec_RR ex_svcb = DOk r s /\
+    r_data r = RSvcb 1 [] [PNoDefaultAlpn; PPort 443].
+Proof.
+  eexists. eexists. split; [vm_compute; reflexivity|]. split; [vm_compute; reflexivity|]. vm_compute. reflexivity.
+Qed.
+
+(* a duplicated key is rejected by both *)
+Example C04_example_svcb_dup :
+  spec_RR [0; 0; 64; 0; 1; 0; 0; 0; 10; 0; 11; 0; 1; 0; 0; 2; 0; 0; 0; 2; 0; 0] = None /\
+  exists e c, dec_RR [0; 0; 64; 0; 1; 0; 0; 0; 10; 0; 11; 0; 1; 0; 0; 2; 0; 0; 0; 2; 0; 0] = DErr e c.
+Proof. split; [vm_compute; reflexivity|do 2 eexists; vm_compute; reflexivity]. Qed.
 
 Example C04_pointer_into_earlier_name :
   expand 17 ptr_msg 6 =
